@@ -232,7 +232,7 @@ func init() {
 	mc.Register(&mc.Check{
 		ID:    "C17",
 		Level: "model_checking",
-		Rule: fmt.Sprintf("engine S over pairs (A,B): A = every history of <=3 letters over a %d-letter alphabet (the 24 C10 call classes incl. protocol violations, high-resolution flag, selector/register/LOD dirtying, open runs, disabled paths) and every prefix of the testdata files as a truncated decode; B = %d probe programs, one per piece of state a leaky Reset would expose. ", nl, len(c17Progs)) +
+		Rule: fmt.Sprintf("engine S over pairs (A,B): A = every history of <=4 (thorough <=5; the last letter state-changing) letters over a %d-letter alphabet (the 24 C10 call classes incl. protocol violations, high-resolution flag, selector/register/LOD dirtying, open runs, disabled paths) and every prefix of the testdata files as a truncated decode; B = %d probe programs, one per piece of state a leaky Reset would expose. ", nl, len(c17Progs)) +
 			"Encoder: A; Reset(m); B; Bytes() must equal a fresh Encoder's bytes for 2 metadata; Renderer: A then B on one Renderer + recording rasteriser must give the same rasteriser log and paints as a fresh pair, and (subset) the same pixels with raster/vec. " +
 			"states = (A,B) pairs, transitions = calls executed; non-trivial = A leaves the object in a dirty state (error, open path, non-default selectors/registers/LOD/flag)",
 		Assumptions: []string{"the caller re-arms vec.Rasterizer.DrawOp and clears the image between decodes, as the documented API requires"},
@@ -243,9 +243,9 @@ func init() {
 				st.truncated(gen.Corpus()[u-nl])
 				return
 			}
-			depth := 3
+			depth := 4
 			if w.Thorough {
-				depth = 4
+				depth = 5
 			}
 			var rcs func(a []int)
 			rcs = func(a []int) {
